@@ -348,175 +348,271 @@ theorem more_of_prefix {tk : Tok} {tl X a' suf : List Tok} (h : (tk :: tl) ++ X 
     simp only [List.cons_append, List.cons.injEq] at h
     rw [← h.1]; exact hm _ _
 
+/-! tagged tokens: projections and the number of events of a complete value -/
+
 mutual
-/-- a value cut strictly before its end -/
-theorem value_cut : ∀ (v : JV) (rp : List JV) (t : St) (r : List St) (pre suf : List Tok), Good t →
-    tokens v = pre ++ suf → suf ≠ [] → (pre ≠ [] ∨ t ≠ .top ∨ term = .err) →
-    ∃ es, Runs me term (.inloop ⟨rp, t :: r⟩ pre) es .error ∧ es <+: spec rp v
+theorem ttokens_fst : ∀ v : JV, (ttokens v).map Prod.fst = tokens v
+  | .null => rfl
+  | .bool _ => rfl
+  | .num _ => rfl
+  | .str _ => rfl
+  | .arr xs => by simp [ttokens, tokens, ttokensL_fst xs]
+  | .obj kvs => by simp [ttokens, tokens, ttokensM_fst kvs]
+theorem ttokensL_fst : ∀ l : List JV, (ttokensL l).map Prod.fst = tokensL l
+  | [] => rfl
+  | x :: xs => by simp [ttokensL, tokensL, ttokens_fst x, ttokensL_fst xs]
+theorem ttokensM_fst : ∀ l : List (Bytes × JV), (ttokensM l).map Prod.fst = tokensM l
+  | [] => rfl
+  | (k, x) :: xs => by simp [ttokensM, tokensM, ttokens_fst x, ttokensM_fst xs]
+end
+
+theorem completed_append (a b : List (Tok × Bool)) : completed (a ++ b) = completed a + completed b := by
+  simp [completed, List.countP_append]
+
+theorem completed_cons_false (t : Tok) (l : List (Tok × Bool)) : completed ((t, false) :: l) = completed l := by
+  simp [completed]
+
+theorem completed_cons_true (t : Tok) (l : List (Tok × Bool)) : completed ((t, true) :: l) = completed l + 1 := by
+  simp [completed]
+
+mutual
+/-- one event per value-completing token -/
+theorem spec_length : ∀ (v : JV) (rp : List JV), (spec rp v).length = completed (ttokens v)
+  | .null, _ => rfl
+  | .bool _, _ => rfl
+  | .num _, _ => rfl
+  | .str _, _ => rfl
+  | .arr [], _ => rfl
+  | .obj [], _ => rfl
+  | .arr (x :: xs), rp => by
+    have := specL_length (x :: xs) (by simp) rp 0
+    simp only [spec, ttokens, completed_cons_false, completed_append, this]
+    simp [completed]
+  | .obj ((k, x) :: kvs), rp => by
+    have := specM_length ((k, x) :: kvs) (by simp) rp
+    simp only [spec, ttokens, completed_cons_false, completed_append, this]
+    simp [completed]
+theorem specL_length : ∀ (l : List JV), l ≠ [] → ∀ (rp : List JV) (i : Nat),
+    (specL rp i l).length = completed (ttokensL l) + 1
+  | [], h, _, _ => absurd rfl h
+  | [x], _, rp, i => by
+    simp [specL, ttokensL, spec_length x, completed]
+  | x :: y :: ys, _, rp, i => by
+    have := specL_length (y :: ys) (by simp) rp (i + 1)
+    simp only [specL, List.length_append, spec_length x, this]
+    rw [show ttokensL (x :: y :: ys) = ttokens x ++ ttokensL (y :: ys) from rfl, completed_append]
+    omega
+theorem specM_length : ∀ (l : List (Bytes × JV)), l ≠ [] → ∀ (rp : List JV),
+    (specM rp l).length = completed (ttokensM l) + 1
+  | [], h, _ => absurd rfl h
+  | [(k, x)], _, rp => by
+    simp [specM, ttokensM, spec_length x, completed]
+  | (k, x) :: y :: ys, _, rp => by
+    have := specM_length (y :: ys) (by simp) rp
+    simp only [specM, List.length_append, spec_length x, this]
+    rw [show ttokensM ((k, x) :: y :: ys) = (.atom (.str k), false) :: (ttokens x ++ ttokensM (y :: ys)) from rfl,
+      completed_cons_false, completed_append]
+    omega
+end
+
+theorem more_of_tprefix {tk : Tok} {b : Bool} {tl X a' suf : List (Tok × Bool)} (h : ((tk, b) :: tl) ++ X = a' ++ suf)
+    (ha : a' ≠ []) (hm : ∀ (m : Bool) (l : List Tok), more m (tk :: l) = true) : more me (a'.map Prod.fst) = true := by
+  cases a' with
+  | nil => exact absurd rfl ha
+  | cons c a'' =>
+    simp only [List.cons_append, List.cons.injEq] at h
+    rw [← h.1]; exact hm _ _
+
+theorem ttokens_cons (v : JV) : ∃ tk b tl, ttokens v = (tk, b) :: tl ∧ ∀ (m : Bool) (l : List Tok), more m (tk :: l) = true := by
+  cases v <;> simp [ttokens, more]
+
+mutual
+/-- a value cut strictly before its end: the events emitted are a prefix of its events, as
+    many as value-completing tokens were read, then an error -/
+theorem value_cut : ∀ (v : JV) (rp : List JV) (t : St) (r : List St) (pre suf : List (Tok × Bool)), Good t →
+    ttokens v = pre ++ suf → suf ≠ [] → (pre ≠ [] ∨ t ≠ .top ∨ term = .err) →
+    ∃ es, Runs me term (.inloop ⟨rp, t :: r⟩ (pre.map Prod.fst)) es .error ∧ es <+: spec rp v ∧
+      es.length = completed pre
   | .null, rp, t, r, pre, suf, _, htok, hsuf, h => by
-    have hp : pre = [] := singleton_split (by simpa [tokens] using htok) hsuf
+    have hp : pre = [] := singleton_split (by simpa [ttokens] using htok) hsuf
     subst hp
-    exact ⟨[], runs_nil (h.resolve_left (by simp)), List.nil_prefix⟩
+    exact ⟨[], runs_nil (h.resolve_left (by simp)), List.nil_prefix, rfl⟩
   | .bool b, rp, t, r, pre, suf, _, htok, hsuf, h => by
-    have hp : pre = [] := singleton_split (by simpa [tokens] using htok) hsuf
+    have hp : pre = [] := singleton_split (by simpa [ttokens] using htok) hsuf
     subst hp
-    exact ⟨[], runs_nil (h.resolve_left (by simp)), List.nil_prefix⟩
+    exact ⟨[], runs_nil (h.resolve_left (by simp)), List.nil_prefix, rfl⟩
   | .num n, rp, t, r, pre, suf, _, htok, hsuf, h => by
-    have hp : pre = [] := singleton_split (by simpa [tokens] using htok) hsuf
+    have hp : pre = [] := singleton_split (by simpa [ttokens] using htok) hsuf
     subst hp
-    exact ⟨[], runs_nil (h.resolve_left (by simp)), List.nil_prefix⟩
+    exact ⟨[], runs_nil (h.resolve_left (by simp)), List.nil_prefix, rfl⟩
   | .str s, rp, t, r, pre, suf, _, htok, hsuf, h => by
-    have hp : pre = [] := singleton_split (by simpa [tokens] using htok) hsuf
+    have hp : pre = [] := singleton_split (by simpa [ttokens] using htok) hsuf
     subst hp
-    exact ⟨[], runs_nil (h.resolve_left (by simp)), List.nil_prefix⟩
+    exact ⟨[], runs_nil (h.resolve_left (by simp)), List.nil_prefix, rfl⟩
   | .arr [], rp, t, r, pre, suf, _, htok, hsuf, h => by
     cases pre with
-    | nil => exact ⟨[], runs_nil (h.resolve_left (by simp)), List.nil_prefix⟩
+    | nil => exact ⟨[], runs_nil (h.resolve_left (by simp)), List.nil_prefix, rfl⟩
     | cons tk pre' =>
-      simp only [tokens, tokensL, List.nil_append, List.cons_append, List.cons.injEq] at htok
+      simp only [ttokens, ttokensL, List.nil_append, List.cons_append, List.cons.injEq] at htok
       obtain ⟨rfl, h2⟩ := htok
       have hp : pre' = [] := singleton_split h2 hsuf
       subst hp
       refine ⟨[], Runs.congr (s2 := ⟨idxJV 0 :: rp, .arrStart :: adv t :: r⟩) (toks2 := []) (by simp [loop]) ?_,
-        List.nil_prefix⟩
+        List.nil_prefix, by simp [completed]⟩
       exact runs_nil (Or.inl (by simp))
   | .obj [], rp, t, r, pre, suf, _, htok, hsuf, h => by
     cases pre with
-    | nil => exact ⟨[], runs_nil (h.resolve_left (by simp)), List.nil_prefix⟩
+    | nil => exact ⟨[], runs_nil (h.resolve_left (by simp)), List.nil_prefix, rfl⟩
     | cons tk pre' =>
-      simp only [tokens, tokensM, List.nil_append, List.cons_append, List.cons.injEq] at htok
+      simp only [ttokens, ttokensM, List.nil_append, List.cons_append, List.cons.injEq] at htok
       obtain ⟨rfl, h2⟩ := htok
       have hp : pre' = [] := singleton_split h2 hsuf
       subst hp
       refine ⟨[], Runs.congr (s2 := ⟨rp, .objStart :: adv t :: r⟩) (toks2 := []) (by simp [loop]) ?_,
-        List.nil_prefix⟩
+        List.nil_prefix, by simp [completed]⟩
       exact runs_nil (Or.inl (by simp))
   | .arr (x :: xs), rp, t, r, pre, suf, _, htok, hsuf, h => by
     cases pre with
-    | nil => exact ⟨[], runs_nil (h.resolve_left (by simp)), List.nil_prefix⟩
+    | nil => exact ⟨[], runs_nil (h.resolve_left (by simp)), List.nil_prefix, rfl⟩
     | cons tk pre' =>
-      simp only [tokens, List.cons_append, List.cons.injEq] at htok
+      simp only [ttokens, List.cons_append, List.cons.injEq] at htok
       obtain ⟨rfl, h2⟩ := htok
-      obtain ⟨es, hr, hpre⟩ := list_cut (x :: xs) (by simp) rp 0 .arrStart (adv t :: r) pre' suf (Or.inl rfl) h2 hsuf
-      refine ⟨es, Runs.congr (by simp [loop]) hr, ?_⟩
+      obtain ⟨es, hr, hpre, hlen⟩ := list_cut (x :: xs) (by simp) rp 0 .arrStart (adv t :: r) pre' suf (Or.inl rfl) h2 hsuf
+      refine ⟨es, Runs.congr (by simp [loop]) hr, ?_, by rw [completed_cons_false]; exact hlen⟩
       simpa only [spec] using hpre
   | .obj ((k, x) :: kvs), rp, t, r, pre, suf, _, htok, hsuf, h => by
     cases pre with
-    | nil => exact ⟨[], runs_nil (h.resolve_left (by simp)), List.nil_prefix⟩
+    | nil => exact ⟨[], runs_nil (h.resolve_left (by simp)), List.nil_prefix, rfl⟩
     | cons tk pre' =>
-      simp only [tokens, List.cons_append, List.cons.injEq] at htok
+      simp only [ttokens, List.cons_append, List.cons.injEq] at htok
       obtain ⟨rfl, h2⟩ := htok
-      obtain ⟨es, hr, hpre⟩ := members_cut ((k, x) :: kvs) (by simp) rp .objStart (adv t :: r) pre' suf (Or.inl rfl) h2 hsuf
-      refine ⟨es, Runs.congr (by simp [loop]) hr, ?_⟩
+      obtain ⟨es, hr, hpre, hlen⟩ := members_cut ((k, x) :: kvs) (by simp) rp .objStart (adv t :: r) pre' suf (Or.inl rfl) h2 hsuf
+      refine ⟨es, Runs.congr (by simp [loop]) hr, ?_, by rw [completed_cons_false]; exact hlen⟩
       simpa only [spec] using hpre
 /-- the elements of a non-empty array (then `]`), cut before the end -/
-theorem list_cut : ∀ (l : List JV), l ≠ [] → ∀ (rp : List JV) (i : Nat) (t : St) (r : List St) (pre suf : List Tok),
-    (t = .arrStart ∨ t = .arrValue) → tokensL l ++ [.rbrack] = pre ++ suf → suf ≠ [] →
-    ∃ es, Runs me term (.inloop ⟨idxJV i :: rp, t :: r⟩ pre) es .error ∧ es <+: specL rp i l
+theorem list_cut : ∀ (l : List JV), l ≠ [] → ∀ (rp : List JV) (i : Nat) (t : St) (r : List St) (pre suf : List (Tok × Bool)),
+    (t = .arrStart ∨ t = .arrValue) → ttokensL l ++ [(.rbrack, true)] = pre ++ suf → suf ≠ [] →
+    ∃ es, Runs me term (.inloop ⟨idxJV i :: rp, t :: r⟩ (pre.map Prod.fst)) es .error ∧ es <+: specL rp i l ∧
+      es.length = completed pre
   | [], h, _, _, _, _, _, _, _, _, _ => absurd rfl h
   | [x], _, rp, i, t, r, pre, suf, ht, htok, hsuf => by
     have hg : Good t := by rcases ht with rfl | rfl <;> simp [Good]
     have hnt : t ≠ .top := by rcases ht with rfl | rfl <;> simp
     have hadv : adv t = .arrValue := by rcases ht with rfl | rfl <;> rfl
-    simp only [tokensL, List.append_nil] at htok
+    simp only [ttokensL, List.append_nil] at htok
     rcases split_cases htok with ⟨c', hc, h1, _⟩ | ⟨a', h1, h2⟩
-    · obtain ⟨es, hr, hpre⟩ := value_cut x (idxJV i :: rp) t r pre c' hg h1 hc (Or.inr (Or.inl hnt))
-      exact ⟨es, hr, by simp only [specL]; exact hpre.trans (List.prefix_append _ _)⟩
+    · obtain ⟨es, hr, hpre, hlen⟩ := value_cut x (idxJV i :: rp) t r pre c' hg h1 hc (Or.inr (Or.inl hnt))
+      exact ⟨es, hr, by simp only [specL]; exact hpre.trans (List.prefix_append _ _), hlen⟩
     · have ha : a' = [] := singleton_split h2 hsuf
       subst ha
       obtain ⟨s1, he, hp⟩ := value_emits (me := me) (term := term) x (idxJV i :: rp) t r [] hg
       rw [hadv] at hp
-      refine ⟨spec (idxJV i :: rp) x, ?_, by simp only [specL]; exact List.prefix_append _ _⟩
-      rw [h1]
+      refine ⟨spec (idxJV i :: rp) x, ?_, by simp only [specL]; exact List.prefix_append _ _,
+        by rw [h1, List.append_nil]; exact spec_length x _⟩
+      rw [h1, List.append_nil, ttokens_fst]
       simpa using Emits.thenRuns he (runs_cut_arr hp)
   | x :: y :: ys, _, rp, i, t, r, pre, suf, ht, htok, hsuf => by
     have hg : Good t := by rcases ht with rfl | rfl <;> simp [Good]
     have hnt : t ≠ .top := by rcases ht with rfl | rfl <;> simp
     have hadv : adv t = .arrValue := by rcases ht with rfl | rfl <;> rfl
-    have htok' : tokens x ++ (tokensL (y :: ys) ++ [.rbrack]) = pre ++ suf := by
-      simpa [tokensL, List.append_assoc] using htok
+    have htok' : ttokens x ++ (ttokensL (y :: ys) ++ [(.rbrack, true)]) = pre ++ suf := by
+      simpa [ttokensL, List.append_assoc] using htok
     rcases split_cases htok' with ⟨c', hc, h1, _⟩ | ⟨a', h1, h2⟩
-    · obtain ⟨es, hr, hpre⟩ := value_cut x (idxJV i :: rp) t r pre c' hg h1 hc (Or.inr (Or.inl hnt))
-      exact ⟨es, hr, by simp only [specL]; exact hpre.trans (List.prefix_append _ _)⟩
-    · obtain ⟨s1, he, hp⟩ := value_emits (me := me) (term := term) x (idxJV i :: rp) t r a' hg
+    · obtain ⟨es, hr, hpre, hlen⟩ := value_cut x (idxJV i :: rp) t r pre c' hg h1 hc (Or.inr (Or.inl hnt))
+      exact ⟨es, hr, by simp only [specL]; exact hpre.trans (List.prefix_append _ _), hlen⟩
+    · obtain ⟨s1, he, hp⟩ := value_emits (me := me) (term := term) x (idxJV i :: rp) t r (a'.map Prod.fst) hg
       rw [hadv] at hp
-      rw [h1]
+      rw [h1, List.map_append, ttokens_fst]
       by_cases ha : a' = []
       · subst ha
-        refine ⟨spec (idxJV i :: rp) x, ?_, by simp only [specL]; exact List.prefix_append _ _⟩
+        refine ⟨spec (idxJV i :: rp) x, ?_, by simp only [specL]; exact List.prefix_append _ _,
+          by rw [List.append_nil]; exact spec_length x _⟩
         simpa using Emits.thenRuns he (runs_cut_arr hp)
-      · obtain ⟨es2, hr2, hpre2⟩ := list_cut (y :: ys) (by simp) rp (i + 1) .arrValue r a' suf (Or.inr rfl) h2 hsuf
-        obtain ⟨tk, tl, hty, hmy⟩ := tokens_cons y
-        have hm : more me a' = true := by
-          have h2' : (tk :: tl) ++ (tokensL ys ++ [.rbrack]) = a' ++ suf := by
-            rw [← hty]; simpa [tokensL, List.append_assoc] using h2
-          exact more_of_prefix h2' ha hmy
-        refine ⟨spec (idxJV i :: rp) x ++ es2, Emits.thenRuns he (.call ?_ hr2), ?_⟩
+      · obtain ⟨es2, hr2, hpre2, hlen2⟩ := list_cut (y :: ys) (by simp) rp (i + 1) .arrValue r a' suf (Or.inr rfl) h2 hsuf
+        obtain ⟨tk, b, tl, hty, hmy⟩ := ttokens_cons y
+        have hm : more me (a'.map Prod.fst) = true := by
+          have h2' : ((tk, b) :: tl) ++ (ttokensL ys ++ [(.rbrack, true)]) = a' ++ suf := by
+            rw [← hty]; simpa [ttokensL, List.append_assoc] using h2
+          exact more_of_tprefix h2' ha hmy
+        refine ⟨spec (idxJV i :: rp) x ++ es2, Emits.thenRuns he (.call ?_ hr2), ?_, ?_⟩
         · simp [prologue, hp, adjust, hm, idxJV]
         · simp only [specL]; exact (List.prefix_append_right_inj _).mpr hpre2
+        · rw [List.length_append, completed_append, spec_length x, hlen2]
 /-- the members of a non-empty object (then `}`), cut before the end -/
-theorem members_cut : ∀ (l : List (Bytes × JV)), l ≠ [] → ∀ (rp : List JV) (t : St) (r : List St) (pre suf : List Tok),
-    (t = .objStart ∨ t = .objValue) → tokensM l ++ [.rbrace] = pre ++ suf → suf ≠ [] →
-    ∃ es, Runs me term (.inloop ⟨rp, t :: r⟩ pre) es .error ∧ es <+: specM rp l
+theorem members_cut : ∀ (l : List (Bytes × JV)), l ≠ [] → ∀ (rp : List JV) (t : St) (r : List St) (pre suf : List (Tok × Bool)),
+    (t = .objStart ∨ t = .objValue) → ttokensM l ++ [(.rbrace, true)] = pre ++ suf → suf ≠ [] →
+    ∃ es, Runs me term (.inloop ⟨rp, t :: r⟩ (pre.map Prod.fst)) es .error ∧ es <+: specM rp l ∧
+      es.length = completed pre
   | [], h, _, _, _, _, _, _, _, _ => absurd rfl h
   | [(k, x)], _, rp, t, r, pre, suf, ht, htok, hsuf => by
     have hnt : t ≠ .top := by rcases ht with rfl | rfl <;> simp
     cases pre with
-    | nil => exact ⟨[], runs_nil (Or.inl hnt), List.nil_prefix⟩
+    | nil => exact ⟨[], runs_nil (Or.inl hnt), List.nil_prefix, rfl⟩
     | cons tk pre' =>
-      simp only [tokensM, List.append_nil, List.cons_append, List.cons.injEq] at htok
+      simp only [ttokensM, List.append_nil, List.cons_append, List.cons.injEq] at htok
       obtain ⟨rfl, htok⟩ := htok
       have hloop : ∀ p, loop term ⟨rp, t :: r⟩ (.atom (.str k) :: p) = loop term ⟨.str k :: rp, .objKey :: r⟩ p := by
         intro p; rcases ht with rfl | rfl <;> simp [loop]
+      simp only [List.map_cons, completed_cons_false]
       rcases split_cases htok with ⟨c', hc, h1, _⟩ | ⟨a', h1, h2⟩
-      · obtain ⟨es, hr, hpre⟩ := value_cut x (.str k :: rp) .objKey r pre' c' (by simp [Good]) h1 hc (Or.inr (Or.inl (by simp)))
-        exact ⟨es, Runs.congr (hloop _) hr, by simp only [specM]; exact hpre.trans (List.prefix_append _ _)⟩
+      · obtain ⟨es, hr, hpre, hlen⟩ := value_cut x (.str k :: rp) .objKey r pre' c' (by simp [Good]) h1 hc (Or.inr (Or.inl (by simp)))
+        exact ⟨es, Runs.congr (hloop _) hr, by simp only [specM]; exact hpre.trans (List.prefix_append _ _), hlen⟩
       · have ha : a' = [] := singleton_split h2 hsuf
         subst ha
         obtain ⟨s1, he, hp⟩ := value_emits (me := me) (term := term) x (.str k :: rp) .objKey r [] (by simp [Good])
         simp only [adv] at hp
-        refine ⟨spec (.str k :: rp) x, Runs.congr (hloop _) ?_, by simp only [specM]; exact List.prefix_append _ _⟩
-        rw [h1]
+        refine ⟨spec (.str k :: rp) x, Runs.congr (hloop _) ?_, by simp only [specM]; exact List.prefix_append _ _,
+          by rw [h1, List.append_nil]; exact spec_length x _⟩
+        rw [h1, List.append_nil, ttokens_fst]
         simpa using Emits.thenRuns he (runs_cut_obj hp)
   | (k, x) :: y :: ys, _, rp, t, r, pre, suf, ht, htok, hsuf => by
     have hnt : t ≠ .top := by rcases ht with rfl | rfl <;> simp
     cases pre with
-    | nil => exact ⟨[], runs_nil (Or.inl hnt), List.nil_prefix⟩
+    | nil => exact ⟨[], runs_nil (Or.inl hnt), List.nil_prefix, rfl⟩
     | cons tk pre' =>
-      have htok' : Tok.atom (.str k) :: (tokens x ++ (tokensM (y :: ys) ++ [.rbrace])) = tk :: (pre' ++ suf) := by
-        simpa [tokensM, List.append_assoc] using htok
+      have htok' : ((Tok.atom (.str k), false) : Tok × Bool) :: (ttokens x ++ (ttokensM (y :: ys) ++ [(.rbrace, true)])) = tk :: (pre' ++ suf) := by
+        simpa [ttokensM, List.append_assoc] using htok
       simp only [List.cons.injEq] at htok'
       obtain ⟨rfl, htok'⟩ := htok'
       have hloop : ∀ p, loop term ⟨rp, t :: r⟩ (.atom (.str k) :: p) = loop term ⟨.str k :: rp, .objKey :: r⟩ p := by
         intro p; rcases ht with rfl | rfl <;> simp [loop]
+      simp only [List.map_cons, completed_cons_false]
       rcases split_cases htok' with ⟨c', hc, h1, _⟩ | ⟨a', h1, h2⟩
-      · obtain ⟨es, hr, hpre⟩ := value_cut x (.str k :: rp) .objKey r pre' c' (by simp [Good]) h1 hc (Or.inr (Or.inl (by simp)))
-        exact ⟨es, Runs.congr (hloop _) hr, by simp only [specM]; exact hpre.trans (List.prefix_append _ _)⟩
-      · obtain ⟨s1, he, hp⟩ := value_emits (me := me) (term := term) x (.str k :: rp) .objKey r a' (by simp [Good])
+      · obtain ⟨es, hr, hpre, hlen⟩ := value_cut x (.str k :: rp) .objKey r pre' c' (by simp [Good]) h1 hc (Or.inr (Or.inl (by simp)))
+        exact ⟨es, Runs.congr (hloop _) hr, by simp only [specM]; exact hpre.trans (List.prefix_append _ _), hlen⟩
+      · obtain ⟨s1, he, hp⟩ := value_emits (me := me) (term := term) x (.str k :: rp) .objKey r (a'.map Prod.fst) (by simp [Good])
         simp only [adv] at hp
-        rw [h1]
+        rw [h1, List.map_append, ttokens_fst]
         by_cases ha : a' = []
         · subst ha
-          refine ⟨spec (.str k :: rp) x, Runs.congr (hloop _) ?_, by simp only [specM]; exact List.prefix_append _ _⟩
+          refine ⟨spec (.str k :: rp) x, Runs.congr (hloop _) ?_, by simp only [specM]; exact List.prefix_append _ _,
+            by rw [List.append_nil]; exact spec_length x _⟩
           simpa using Emits.thenRuns he (runs_cut_obj hp)
-        · obtain ⟨es2, hr2, hpre2⟩ := members_cut (y :: ys) (by simp) rp .objValue r a' suf (Or.inr rfl) h2 hsuf
-          have hm : more me a' = true := by
+        · obtain ⟨es2, hr2, hpre2, hlen2⟩ := members_cut (y :: ys) (by simp) rp .objValue r a' suf (Or.inr rfl) h2 hsuf
+          have hm : more me (a'.map Prod.fst) = true := by
             obtain ⟨k', y'⟩ := y
-            have h2' : (Tok.atom (.str k') :: (tokens y' ++ tokensM ys)) ++ [.rbrace] = a' ++ suf := by
-              simpa [tokensM, List.append_assoc] using h2
-            exact more_of_prefix h2' ha (by intro m l; simp [more])
-          refine ⟨spec (.str k :: rp) x ++ es2, Runs.congr (hloop _) (Emits.thenRuns he (.call ?_ hr2)), ?_⟩
+            have h2' : ((Tok.atom (.str k'), false) :: (ttokens y' ++ ttokensM ys)) ++ [(.rbrace, true)] = a' ++ suf := by
+              simpa [ttokensM, List.append_assoc] using h2
+            exact more_of_tprefix h2' ha (by intro m l; simp [more])
+          refine ⟨spec (.str k :: rp) x ++ es2, Runs.congr (hloop _) (Emits.thenRuns he (.call ?_ hr2)), ?_, ?_⟩
           · simp [prologue, hp, adjust, hm]
           · simp only [specM]; exact (List.prefix_append_right_inj _).mpr hpre2
+          · rw [List.length_append, completed_append, spec_length x, hlen2]
 end
 
 /-- a top-level document cut before its end (after at least one token, or with a decoder error) -/
-theorem doc_cut (v : JV) (s : S) (pre suf : List Tok) (hs : popEnd s = some init)
-    (htok : tokens v = pre ++ suf) (hsuf : suf ≠ []) (h : pre ≠ [] ∨ term = .err) :
-    ∃ es, Runs me term (.boundary s pre) es .error ∧ es <+: streamSpec v := by
-  obtain ⟨es, hr, hpre⟩ := value_cut (me := me) (term := term) v [] .top [] pre suf (Or.inl rfl) htok hsuf
+theorem doc_cut (v : JV) (s : S) (pre suf : List (Tok × Bool)) (hs : popEnd s = some init)
+    (htok : ttokens v = pre ++ suf) (hsuf : suf ≠ []) (h : pre ≠ [] ∨ term = .err) :
+    ∃ es, Runs me term (.boundary s (pre.map Prod.fst)) es .error ∧ es <+: streamSpec v ∧
+      es.length = completed pre := by
+  obtain ⟨es, hr, hpre, hlen⟩ := value_cut (me := me) (term := term) v [] .top [] pre suf (Or.inl rfl) htok hsuf
     (h.elim Or.inl (fun h => Or.inr (Or.inr h)))
-  refine ⟨es, .call ?_ hr, hpre⟩
-  cases hm : more me pre <;> simp [prologue, hs, adjust, init]
+  refine ⟨es, .call ?_ hr, hpre, hlen⟩
+  cases hm : more me (pre.map Prod.fst) <;> simp [prologue, hs, adjust, init]
+
+/-- a prefix of known length is a `take` -/
+theorem prefix_eq_take {α} {es l : List α} (h : es <+: l) : es = l.take es.length := by
+  obtain ⟨t, rfl⟩ := h
+  simp
 
 end Gojq.Stream
